@@ -30,6 +30,7 @@ type c17Case struct {
 	Mode    plMode
 	TermLWS string // sp terminator: the LWS text; others: LWS before the terminator
 	Cap     int
+	Cut     int // > 0: two chunks, the first of this length (not with the end-of-input flag)
 }
 
 type plExp struct {
@@ -168,8 +169,16 @@ func evalC17(cs *c17Case) (vs []*Violation) {
 	case "tok":
 		var p sipsp.PTokParam
 		offs := 0
+		avail := len(buf)
+		if cs.Cut > 0 && cs.Cut < len(buf) {
+			avail = cs.Cut
+		}
 		for i := 0; ; i++ {
-			n, e := sipsp.ParseTokenParam(buf, offs, &p, flags)
+			n, e := sipsp.ParseTokenParam(buf[:avail], offs, &p, flags)
+			if e == sipsp.ErrHdrMoreBytes && avail < len(buf) {
+				avail = len(buf)
+				n, e = sipsp.ParseTokenParam(buf, n, &p, flags)
+			}
 			if len(exp) == 0 {
 				if e != wantErr || n != endOffs {
 					add("terminator-verdict-and-offset", cls, fmt.Sprintf("empty list: (%d,%v) want (%d,%v)", n, e, endOffs, wantErr))
@@ -207,7 +216,17 @@ func evalC17(cs *c17Case) (vs []*Violation) {
 		if cs.Cap >= 0 {
 			l.Init(make([]sipsp.URIParam, cs.Cap))
 		}
-		n, cnt, e := sipsp.ParseAllURIParams(buf, 0, &l, flags)
+		var n, cnt int
+		var e sipsp.ErrorHdr
+		if cs.Cut > 0 && cs.Cut < len(buf) {
+			var c1 int
+			if n, c1, e = sipsp.ParseAllURIParams(buf[:cs.Cut], 0, &l, flags); e == sipsp.ErrHdrMoreBytes {
+				n, cnt, e = sipsp.ParseAllURIParams(buf, n, &l, flags)
+			}
+			cnt += c1
+		} else {
+			n, cnt, e = sipsp.ParseAllURIParams(buf, 0, &l, flags)
+		}
 		if e != wantErr || n != endOffs {
 			add("terminator-verdict-and-offset", cls, fmt.Sprintf("final (%d,%v) want (%d,%v)", n, e, endOffs, wantErr))
 			return
@@ -253,7 +272,17 @@ func evalC17(cs *c17Case) (vs []*Violation) {
 		if cs.Cap >= 0 {
 			l.Init(make([]sipsp.URIHdr, cs.Cap))
 		}
-		n, cnt, e := sipsp.ParseAllURIHdrs(buf, 0, &l, flags)
+		var n, cnt int
+		var e sipsp.ErrorHdr
+		if cs.Cut > 0 && cs.Cut < len(buf) {
+			var c1 int
+			if n, c1, e = sipsp.ParseAllURIHdrs(buf[:cs.Cut], 0, &l, flags); e == sipsp.ErrHdrMoreBytes {
+				n, cnt, e = sipsp.ParseAllURIHdrs(buf, n, &l, flags)
+			}
+			cnt += c1
+		} else {
+			n, cnt, e = sipsp.ParseAllURIHdrs(buf, 0, &l, flags)
+		}
 		if e != wantErr || n != endOffs {
 			add("terminator-verdict-and-offset", cls, fmt.Sprintf("final (%d,%v) want (%d,%v)", n, e, endOffs, wantErr))
 			return
@@ -407,6 +436,7 @@ func checkC17(r *Run) {
 	}
 	lws := []string{" ", "\r\n "}
 	modes := c17Modes()
+	cutEvery := r.pick(4, 1)
 	run := func(c *enumCtx, cs *c17Case) {
 		if cs.Mode.Term == "sp" && len(cs.Items) > 0 {
 			l := cs.Items[len(cs.Items)-1]
@@ -423,6 +453,29 @@ func checkC17(r *Run) {
 		}
 		for _, v := range vs {
 			r.Col.add(v)
+		}
+		// two-chunk delivery, every cut, for a deterministic selection of cases (never with the end-of-input flag:
+		// it declares the first chunk complete)
+		if cs.Mode.Flags&uint(sipsp.POptInputEndF) != 0 {
+			return
+		}
+		buf, _, _, _, _ := cs.render()
+		var hsh uint32 = 2166136261
+		for _, b := range buf {
+			hsh = (hsh ^ uint32(b)) * 16777619
+		}
+		hsh = (hsh ^ uint32(cs.Mode.Flags)) * 16777619
+		if int(hsh>>8)%cutEvery != 0 {
+			return
+		}
+		for cut := 1; cut < len(buf); cut++ {
+			cc := *cs
+			cc.Cut = cut
+			c.st.Evals++
+			c.st.Transitions += 2
+			for _, v := range evalC17(&cc) {
+				r.Col.add(v)
+			}
 		}
 	}
 	maxItems := r.pick(2, 3)
